@@ -668,8 +668,8 @@ class simplify_chained_calls(FuncADLNodeTransformer):
 
     def visit_Subscript_Dict_with_value(self, v: ast.Dict, s: Union[str, int]):
         "Do the lookup for the dict. Returns None if the key is not in the dict."
-        if any(k is None for k in v.keys):
-            # A `**mapping` entry may define (or override) any key
+        if any(not isinstance(k, ast.Constant) for k in v.keys):
+            # A `**mapping` entry or a computed key may define (or override) any key
             return None
         # As in python, the last of several equal keys is the one that counts
         for index, value in reversed(list(enumerate(v.keys))):
